@@ -469,7 +469,14 @@ Definition step_do (c : cfg) (m : dacsopt) (xs : list N) (ml itpos : N) (code : 
   | 78 => keep (rv_optnum (do_access c m a0)) (sp_optnum (SeqSpec.nth_opt xs a0))
   | 80 => keep (RNum (do_num_levels m))
                (SPred (fun r => match r with RNum l => (1 <=? l) && (l <=? N.min ml 64) | _ => false end))
-  | 81 => keep (RNums (do_widths m)) (SPred (widths_ok xs ml))
+  | 81 => (* optimal <-> admissible and as cheap as the model's widths (C18_driver_form); for short bit lengths
+             the brute-force minimum is compared as well *)
+          let wm := do_widths m in
+          keep (RNums wm)
+               (SPred (fun r => widths_ok xs ml r &&
+                                match r, xs with
+                                | RNums ws, _ :: _ => DacSpec.cost xs ws =? DacSpec.cost xs wm
+                                | _, _ => true end))
   | 40 => (DDO m xs ml 0, ROk, SExact ROk)
   | 41 => let sp := sp_optnum (SeqSpec.nth_opt xs itpos) in
           match do_iter_next c m itpos with
